@@ -540,6 +540,8 @@ where
             0,
             false,
         );
+        // every position below this one is in the hasher
+        let mut hashed_to = 0usize;
         for thread_index in 1..num_threads {
             let res = spawner_and_input.view(|input_and_params: &(SliceW, BrotliEncoderParams)| {
                 let range = get_range(thread_index - 1, num_threads, input_and_params.0.len());
@@ -549,23 +551,22 @@ where
                     5,
                     thread_index as u64,
                     overlap as u64,
-                    (range.end - range.start > overlap) as u64,
-                    if range.start > overlap { range.start - overlap } else { 0 } as u64,
+                    (range.end > overlap && range.end - overlap > hashed_to) as u64,
+                    hashed_to as u64,
                     range.end.wrapping_sub(overlap) as u64,
                     0,
                     0,
                 ]);
-                if range.end - range.start > overlap {
+                // what StoreLookaheadThenStore indexes for a dictionary of range.end bytes, also
+                // when ranges are no longer than the lookahead
+                if range.end > overlap && range.end - overlap > hashed_to {
                     hasher.BulkStoreRange(
                         input_and_params.0.slice(),
                         usize::MAX,
-                        if range.start > overlap {
-                            range.start - overlap
-                        } else {
-                            0
-                        },
+                        hashed_to,
                         range.end - overlap,
                     );
+                    hashed_to = range.end - overlap;
                 }
             });
             if let Err(_e) = res {
